@@ -106,6 +106,42 @@ mod driver {
         json!({"result": out})
     }
 
+    pub fn engine_ops(case: &Value) -> Value {
+        let rt = tokio::runtime::Builder::new_current_thread().enable_all().build().unwrap();
+        rt.block_on(async {
+            let engine = DhtCoreEngine::new_with_validation_mode(NodeId::from_bytes([0u8; 32]), CloseGroupEnforcementMode::LogOnly).unwrap();
+            let t = table(case);
+            // the failed peer: the `failed_slot`-th potential node of the layout (tags number the slots in layout order)
+            let which = u(case, "failed_slot");
+            let mut failed: Option<NodeId> = None;
+            for bk in t.buckets.iter() {
+                for n in bk.get_nodes() {
+                    if n.capacity.storage_available == which {
+                        failed = Some(n.id.clone());
+                    }
+                }
+            }
+            *engine.routing_table.write().await = t;
+            let key = match case["__params"]["t"].as_u64() {
+                Some(t) => id_in_bucket(raw32(case, "key"), t as usize),
+                None => [0u8; 32],
+            };
+            let key = DhtKey::from_bytes(key);
+            let count = u(case, "count") as usize;
+            let mut engine = engine;
+            let res = if case["__params"]["fail"].as_bool().unwrap_or(false) {
+                if let Some(f) = failed {
+                    let _ = engine.handle_node_failure(f).await;
+                }
+                engine.find_nodes(&key, count).await.unwrap_or_default()
+            } else {
+                engine.select_query_peers(&key, count).await
+            };
+            let out: Vec<Value> = res.iter().map(|n| json!({"id": n.id.as_bytes().to_vec(), "tag": n.capacity.storage_available})).collect();
+            json!({"result": out})
+        })
+    }
+
     pub fn mutation(case: &Value) -> Value {
         let mut rt = table(case);
         let x = match case["__params"]["xb"].as_u64() {
@@ -140,6 +176,7 @@ fn verif_replay_entry() {
     let obs = match h.as_str() {
         "closest" => driver::closest(&case),
         "mutation" => driver::mutation(&case),
+        "engine_ops" => driver::engine_ops(&case),
         other => panic!("unknown driver {other}"),
     };
     println!("VERIF-OBS {}", obs);
